@@ -138,7 +138,7 @@ func runC06Manager(env *Env, rc *RunCtx) {
 	// a UUID universe shared by all networks
 	ou := func(s string) uuid.UUID { return uuid.NewV5(uuid.Nil, "sim-shared-"+s) }
 	nss := []string{"N0", "N1"}
-	rels := []string{"r0", "r1", ""}
+	rels := []string{"r0", "r1", "", "..."} // "..." is Zanzibar's spelling of "the object itself"
 	nObj := t.Range(2, 5)
 	mkT := func(i int) *relationtuple.RelationTuple {
 		x := &relationtuple.RelationTuple{Namespace: pick(t, nss), Object: ou(fmt.Sprintf("o%d", t.Choose(nObj))), Relation: pick(t, rels)}
